@@ -521,3 +521,14 @@ proof fn lemma_user_call_accepted_iff(f: Function, name: Identifier, args: Seq<E
 {
 	lemma_first_blame(f.parameters@, args, 0);
 }
+// "a later expression in the same statement is not treated as an argument": in `f(a) + arr` and in `x = f(a); .. = arr`
+// the operand / value after the call is judged with imm = false whatever the call's arguments were, and the flag is off
+// after every call, operation and statement
+proof fn lemma_expression_after_a_call_is_not_an_argument(r: Expression, e: Expression, imm: bool, fns: Fns)
+	requires ok_e(r, e, imm, fns), e is Binary, *e->Binary_left is FunctionCall, *e->Binary_right is Deref,
+	ensures
+		(*r->Binary_right)->Deref_deref_type == copy_rule((*e->Binary_right)->Deref_deref_type, false, (*e->Binary_right)->Deref_reference.location),
+		!xf_e(*e->Binary_left, imm), !xf_e(e, imm),
+{
+	reveal_with_fuel(ok_e, 2);
+}
